@@ -25,7 +25,7 @@ ASSIGN = ("set", "setitem", "setcfg", "itemset", "cmdline")
 
 
 def bounds(tier):
-    leaves = list(W.catalogue()) if tier == "thorough" else W.quick_leaves() + ["list-int-cd", "dict-typed-cd", "int-cd", "challenge-dflt", "list-any-dflt", "challenge-counter", "int-cd-partial", "list-int-cd-object", "dict-typed-cd-partial"]
+    leaves = list(W.catalogue()) if tier == "thorough" else W.quick_leaves() + ["list-int-cd", "dict-typed-cd", "int-cd", "challenge-dflt", "list-any-dflt", "challenge-counter", "int-cd-partial", "list-int-cd-object", "dict-typed-cd-partial", "loglevel-rawdflt", "int-rawdflt", "str-rawdflt"]
     return {"shapes": ["flat", "nested", "cfglist", "dynamic", "nested-v"], "leaves": leaves, "depth": 4 if tier == "thorough" else 2, "depth_note": "thorough: 4 for the core leaves, 3 for the other quick-tier leaves, 2 for the rest"}
 
 
@@ -102,7 +102,10 @@ class Monitor:
                     continue
             value = getattr(cfg, key)
             d = default_norm(f)
-            if d[0] == "ok" and not (value is None and d[1] is None) and not R.matches(value, d[1]):
+            raw_default = V.dec(f["o"]["default"]) if "default" in f.get("o", {}) and not f["o"].get("default_callable") else None
+            if raw_default is not None and V.canon(value) == V.canon(raw_default):
+                pass          # the declared default, literally (a default that is valid but not in normal form)
+            elif d[0] == "ok" and not (value is None and d[1] is None) and not R.matches(value, d[1]):
                 self.bad(ctx, "default-value", "after %s: %s shows %s, its declared default is %s" % (hist, path, V.show(value, 40), V.show(d[1], 40)), hist, op)
             if cc.is_value_defined(cfg, key):
                 self.bad(ctx, "default-marked-defined", "after %s: %s holds its default but counts as user-defined" % (hist, path), hist, op)
@@ -208,6 +211,11 @@ class Monitor:
         ctx.case((self.shape, self.leaf, repr(before), repr(op)), "%s:%s" % (op[0] if op[0] != "mut" else "mut", "ok" if outcome[0] == "ok" else "rejected"),
                  after != before or outcome[0] == "raise")
         mb, ma = marks(before), marks(after)
+        if op[0] == "validate":
+            # a validation pass, passing or failing, neither changes a value nor which fields count as user-defined
+            if after != before:
+                self.bad(ctx, "validate-changes", "after %s, validate() changed the configuration at %s" % (hist, W.diff_paths(before, after)), hist, op)
+            return
         if outcome[0] == "raise":
             if op[0] in ASSIGN and mb != ma:
                 moved = sorted(k for k in set(mb) | set(ma) if mb.get(k) != ma.get(k))
@@ -230,7 +238,10 @@ class Monitor:
             elif f is not None and not (f["k"] == "List" and isinstance(f.get("item"), dict) and f["item"]["k"] in ("Schema", "CType")):
                 d = default_norm(f)
                 value = getattr(owner, key)
-                if d[0] == "ok" and not (value is None and d[1] is None) and not R.matches(value, d[1]):
+                raw_default = V.dec(f["o"]["default"]) if "default" in f.get("o", {}) and not f["o"].get("default_callable") else None
+                if raw_default is not None and V.canon(value) == V.canon(raw_default):
+                    pass      # the declared default, literally
+                elif d[0] == "ok" and not (value is None and d[1] is None) and not R.matches(value, d[1]):
                     self.bad(ctx, "reset-value", "after %s, reset(%s) gives %s, the declared default is %s" % (hist, path, V.show(value, 40), V.show(d[1], 40)), hist, op)
             stray = [d for d in W.diff_paths(before, after) if not (d.split("#")[0] == path or d.split("#")[0].startswith(path + "."))]
             if stray:
@@ -339,5 +350,5 @@ def run_job(job, ctx):
         W.explore(ctx, m.spec, single["leaf"], 0, m, only=(single["hist"], single["op"]))
         return
     m = Monitor(job["shape"], job["leaf"], job["tier"])
-    n, nops = W.explore(ctx, m.spec, job["leaf"], job["depth"], m, tier=job["tier"], max_states=3000)
+    n, nops = W.explore(ctx, m.spec, job["leaf"], job["depth"], m, tier=job["tier"], max_states=3000, extra_ops=[["validate"]])
     ctx.sample({"shape": job["shape"], "leaf": job["leaf"], "states": n, "operations_per_state": nops})
